@@ -306,6 +306,19 @@ def graph_case(rng, nmax, family, force_name=None):
         labelled = rng.sample(entries, rng.randint(1, len(entries)))
         o['edge_labels'] = label_list(rng, labelled)
         edge_colors = 'labelled'
+    # edges given through edge_labels only (pairs that are NOT stored in the matrix, the usual way to draw a few edges over given
+    # positions with adjacency=None): each listed pair is displayed as one more path
+    residual = []
+    if positions is not None and n >= 2 and dtype != 'bool' and rng.random() < (0.7 if family == 'nomatrix' else 0.15):
+        stored = set(entries)
+        cand = [(i, j) for i in range(n) for j in range(n) if i != j and (i, j) not in stored and (directed_graph or (j, i) not in stored)]
+        rng.shuffle(cand)
+        for (i, j) in cand[:rng.randint(1, 3)]:
+            if (j, i) not in residual:
+                residual.append((i, j))
+        if residual:
+            o['edge_labels'] = (o.get('edge_labels') or []) + [[i, j, rng.choice([0, 1, 3, 10])] for (i, j) in residual]
+            edge_colors = 'labelled'
     args = dict(m=None if family == 'nomatrix' else dict(shape=[n, n], coo=[[i, j, w] for i, j, w in wE], dtype=dtype, fmt='csr'),
                 position=positions, names=wrap_names(rng, names), opts=o, alias=rng.random() < 0.15,
                 file=rng.random() < 0.3)
@@ -322,7 +335,8 @@ def graph_case(rng, nmax, family, force_name=None):
             directed = bool(o['directed'])
     meta = dict(kind='graph', n=n, entries=entries, directed=directed, display_edges=display_edges,
                 positions=positions, names=names, name_position=o.get('name_position', 'right'),
-                shapes=[shapes[i] for i in order], k_probs=k_probs, graph_family=fam, edge_colors=edge_colors)
+                shapes=[shapes[i] for i in order], k_probs=k_probs, graph_family=fam, edge_colors=edge_colors,
+                residual=residual if display_edges else [])
     return 'graph', family, args, meta
 
 
@@ -512,6 +526,8 @@ def model_expr(meta):
         for (i, j) in meta['entries']:
             distinct = True if pos is None else (pos[i] != pos[j])
             edges.append('(E %s)' % cbool(distinct))
+        for (i, j) in (meta.get('residual') or []):          # edges listed in edge_labels only: drawn after the stored ones
+            edges.append('(E %s)' % cbool(True if pos is None else (pos[i] != pos[j])))
         markers = []
         if meta['directed'] and meta['display_edges'] and meta['entries']:
             markers = ['"c"'] * meta['n_markers']
@@ -544,6 +560,10 @@ def expected_counts(meta):
             lo, hi = 0, len(ent)
         else:
             lo = hi = sum(1 for (i, j) in ent if pos[i] != pos[j])
+        res = [tuple(e) for e in meta.get('residual') or []]      # listed in edge_labels, not stored: one path each (positions are given)
+        if res:
+            extra = sum(1 for (i, j) in res if pos[i] != pos[j])
+            lo, hi = lo + extra, hi + (len(res) if not meta['directed'] else extra)
         shapes = meta['shapes']
         k = meta['k_probs']
         names = meta['names']
